@@ -474,5 +474,9 @@ int main() {
   creators<nfl::poly<uint32_t, 8, 3>>(g, th ? 10 : 2);
   creators<nfl::poly<uint64_t, 8, 3>>(g, th ? 10 : 2);
   creators<nfl::poly<uint64_t, 4, 1>>(g, th ? 10 : 2);
+  // every row of the 32- and 64-bit tables as a modulus of one polynomial (reductions that are only right for the
+  // first rows, e.g. constants derived from 2^w - p that overflow further down the table)
+  creators<nfl::poly<uint32_t, 2, nfl::params<uint32_t>::kMaxNbModuli>>(g, 1);
+  creators<nfl::poly<uint64_t, 2, nfl::params<uint64_t>::kMaxNbModuli>>(g, 1);
   return 0;
 }
